@@ -127,35 +127,49 @@ theorem curved_alloc_repo (cls : Curved) (centre : ArgKind) (s0 : Alloc) :
   simp only [convert_array, Alloc.fresh]
   exact ⟨le_refl _, fun b hb => Or.inl hb⟩
 
-/-- `Polyhedron`: vertices and equations are new, nothing of the caller is written; the stored FACES are exactly the
-caller's face arrays (the list of their blocks) -/
+/-- `Polyhedron` (after b62a6dc): vertices, EVERY stored face array and the equations are new, nothing of the caller is
+written — whatever the container of `faces` (nested lists put no array into the object at all) -/
 theorem polyhedron_alloc_repo (verts : ArgKind) (faces : FacesKind) (nfaces : Nat) (s0 : Alloc) :
     Fresh s0 (Polyhedron.alloc repoSites verts faces nfaces s0).1.vertices ∧
+    (∀ b ∈ (Polyhedron.alloc repoSites verts faces nfaces s0).1.faces, Fresh s0 b) ∧
     Fresh s0 (Polyhedron.alloc repoSites verts faces nfaces s0).1.equations ∧
-    WritesOnlyFresh s0 (Polyhedron.alloc repoSites verts faces nfaces s0).2 ∧
-    (Polyhedron.alloc repoSites verts faces nfaces s0).1.faces =
+    WritesOnlyFresh s0 (Polyhedron.alloc repoSites verts faces nfaces s0).2 := by
+  unfold Polyhedron.alloc Fresh WritesOnlyFresh repoSites
+  simp only [convert_array, if_true]
+  cases faces with
+  | nested =>
+    simp only [Alloc.fresh, Alloc.write, List.mem_cons, List.not_mem_nil]
+    refine ⟨le_refl _, fun b hb => absurd hb (by simp), by omega, ?_⟩
+    rintro b (hb | hb)
+    · right; omega
+    · left; exact hb
+  | arrays blks =>
+    obtain ⟨h1, h2, h3⟩ := freshN_spec blks.length (s0.fresh).2
+    have hf := freshN_fresh blks.length (s0.fresh).2
+    simp only [Alloc.fresh, Alloc.write, List.mem_cons] at *
+    refine ⟨le_refl _, ?_, by rw [h2]; omega, ?_⟩
+    · intro b hb; have := hf b hb; omega
+    · rintro b (hb | hb)
+      · right; rw [hb, h2]; omega
+      · left; rw [h3] at hb; exact hb
+  | array2d blk =>
+    obtain ⟨h1, h2, h3⟩ := freshN_spec nfaces (s0.fresh).2
+    have hf := freshN_fresh nfaces (s0.fresh).2
+    simp only [Alloc.fresh, Alloc.write, List.mem_cons] at *
+    refine ⟨le_refl _, ?_, by rw [h2]; omega, ?_⟩
+    · intro b hb; have := hf b hb; omega
+    · rintro b (hb | hb)
+      · right; rw [hb, h2]; omega
+      · left; rw [h3] at hb; exact hb
+
+/-- the code BEFORE b62a6dc (`[face for face in faces]`): the stored faces are exactly the caller's blocks -/
+theorem polyhedron_alloc_before_fix (verts : ArgKind) (faces : FacesKind) (nfaces : Nat) (s0 : Alloc) :
+    (Polyhedron.alloc sitesBeforeFacesFix verts faces nfaces s0).1.faces =
       (match faces with
         | .nested => []
         | .arrays blks => blks
         | .array2d blk => List.replicate nfaces blk) := by
-  unfold Polyhedron.alloc Fresh WritesOnlyFresh repoSites
-  simp only [convert_array, Bool.false_eq_true, if_false]
-  have hw : ∀ (w : List Nat) (b : Nat), b ∈ (s0.next + 1) :: w → b ∈ w ∨ s0.next ≤ b := by
-    intro w b hb
-    rcases List.mem_cons.1 hb with hb | hb
-    · right; omega
-    · left; exact hb
-  cases faces <;> simp only [Alloc.fresh, Alloc.write] <;>
-    exact ⟨le_refl _, by omega, hw _, by trivial⟩
-
-/-- had `Polyhedron.__init__` copied each face, the faces would be new arrays as well -/
-theorem polyhedron_alloc_copyFaces (verts : ArgKind) (faces : FacesKind) (nfaces : Nat) (s0 : Alloc) :
-    ∀ b ∈ (Polyhedron.alloc { repoSites with copyFaces := true } verts faces nfaces s0).1.faces, Fresh s0 b := by
-  unfold Polyhedron.alloc Fresh repoSites
-  simp only [convert_array, if_true]
-  intro b hb
-  have := freshN_fresh nfaces (s0.fresh).2 b hb
-  simp only [Alloc.fresh] at this
-  omega
+  unfold Polyhedron.alloc sitesBeforeFacesFix repoSites
+  cases faces <;> simp
 
 end C15
